@@ -181,13 +181,13 @@ func execC11(c C11Case) *Failure {
 				}
 				mu.Unlock()
 			})
-			if !lr.WaitFlushedHeader(Bound()*8) || lr.Returned() {
+			if !lr.WaitFlushedHeader(Patience()) || lr.Returned() {
 				return TimingFailf("C11/stream-not-opened", "%s: the GET did not deliver response headers", where)
 			}
 			if gate != nil {
 				select {
 				case <-gate.reached:
-				case <-time.After(Bound() * 8):
+				case <-time.After(Patience()):
 					return TimingFailf("C11/gate-not-reached", "%s: handler did not reach %s", where, st.Hold)
 				}
 				gateOf[gen] = gate
@@ -236,7 +236,7 @@ func execC11(c C11Case) *Failure {
 			if _, held := tearOf[s.gen]; held {
 				continue // its teardown is held on purpose; it returns after the release
 			}
-			if !s.lr.WaitReturned(Bound() * 8) {
+			if !s.lr.WaitReturned(Patience()) {
 				return TimingFailf("C11/handler-stuck", "%s: the handler of generation %d did not return after its peer went away", where, s.gen)
 			}
 		case "sendheld":
@@ -271,7 +271,7 @@ func execC11(c C11Case) *Failure {
 			var err error
 			select {
 			case err = <-heldDone:
-			case <-time.After(Bound() * 8):
+			case <-time.After(Patience()):
 				return TimingFailf("C11/held-send-stuck", "%s: a paused send did not finish after its release", where)
 			}
 			// it was addressed while heldOwner owned the session: it is delivered there, or fails if that stream has gone meanwhile
@@ -290,12 +290,12 @@ func execC11(c C11Case) *Failure {
 				o.closed = true
 				o.lr.PeerGone()
 				lr := StartLive(h, "GET", "http://verif/mcp", map[string]string{"Accept": "text/event-stream", "Mcp-Session-Id": conn.SessionID}, nil, nil)
-				if !lr.WaitFlushedHeader(Bound()*8) || lr.Returned() {
+				if !lr.WaitFlushedHeader(Patience()) || lr.Returned() {
 					return TimingFailf("C11/stream-not-opened", "%s: the GET racing with the old stream's teardown did not open", where)
 				}
 				ns := &c11Stream{lr: lr, gen: len(streams)}
 				streams = append(streams, ns)
-				o.lr.WaitReturned(Bound() * 8)
+				o.lr.WaitReturned(Patience())
 				seq++
 				nonce := fmt.Sprintf("r%d", seq)
 				if err := w.Srv.SendNotification(conn.SessionID, "notifications/verif", map[string]interface{}{"nonce": nonce}); err != nil {
@@ -343,7 +343,7 @@ func execC11(c C11Case) *Failure {
 				heldOwner.expect = append(heldOwner.expect, heldNonce)
 				sortExpectByArrival(heldOwner)
 			}
-		case <-time.After(Bound() * 8):
+		case <-time.After(Patience()):
 			return TimingFailf("C11/held-send-stuck", "a paused send did not finish after its release (history %s)", c11History(c.Steps))
 		}
 	}
@@ -355,7 +355,7 @@ func execC11(c C11Case) *Failure {
 	// replaced streams have ended; the bystander is untouched
 	if o := owner(); o != nil {
 		for _, s := range streams {
-			if s != o && !s.closed && !s.lr.WaitReturned(Bound()*8) {
+			if s != o && !s.closed && !s.lr.WaitReturned(Patience()) {
 				return TimingFailf("C11/old-stream-not-closed", "generation %d is still open although generation %d replaced it (history %s)", s.gen, o.gen, c11History(c.Steps))
 			}
 		}
